@@ -9,6 +9,7 @@ mod model;
 mod pruning;
 mod mon;
 mod qast;
+mod rawschema;
 mod refeval;
 mod rng;
 mod stream;
@@ -56,6 +57,7 @@ fn main() {
                 "c07" => checks::c07::replay(&w.extra),
                 "c16" => checks::c16::replay(&w.extra),
                 "c18" => checks::c18::replay(&w.extra),
+                "c19" => checks::c19::replay(&w.extra),
                 "c10" => checks::c10::replay(&w.extra, w.schema_sdl.as_deref()),
                 "c15" => checks::c15::replay(w.case.as_ref().expect("witness without case"), &w.extra),
                 "c21" => checks::c21::replay(w.case.as_ref().expect("witness without case")),
@@ -111,6 +113,9 @@ fn main() {
                 "C01" => checks::c01::run(&mut report, seed, cases),
                 "C09" => checks::c09::run(&mut report, seed, cases),
                 "C22" => checks::c22::run(&mut report, seed, cases),
+                "C20" => checks::c20::run(&mut report, seed, cases),
+                "C25" => checks::c25::run(&mut report, seed, cases),
+                "C19" => checks::c19::run(&mut report, seed, cases),
                 "C10" => checks::c10::run(&mut report, seed, cases),
                 "C18" => checks::c18::run(&mut report, seed, cases),
                 "C16" => checks::c16::run(&mut report, seed, cases, param("--slice", 0)),
